@@ -55,6 +55,9 @@ Definition canon_header (hd : header) : list Z :=
   [cmode_code (h_cm hd); h_channels hd; h_w hd; h_h hd; h_depth hd].
 Definition dg (l : list Z) : Z := to_Z (h63_list 0%uint63 l).
 
+Definition canon_opt_plane (o : option plane) : list Z :=
+  match o with None => [0] | Some p => 1 :: zlen p :: p end.
+
 Definition cfg_of_bits (b : Z) : cfg :=
   mkCfg (Z.testbit b 0) (Z.testbit b 1) (Z.testbit b 2) (Z.testbit b 3) (Z.testbit b 4).
 
@@ -73,7 +76,12 @@ Definition layer_digests (k : layer_case) : list Z :=
     if lc_export k then
       dg (canon_res (fun o => match o with None => [0] | Some r => 1 :: canon_raster r end) (layer_topil cm l))
     else 0;
-    if lc_export k then dg (canon_planes (layer_numpy cm l)) else 0 ].
+    if lc_export k then dg (canon_planes (layer_numpy cm l)) else 0;
+    (* every channel selector: topil(-1), topil(0..n-1), numpy("color"), numpy("shape") *)
+    if lc_export k then
+      dg (flat_map (fun id => canon_opt_plane (layer_topil_chan l id)) ((-1) :: zseq (Z.to_nat (cm_channels cm)))
+          ++ canon_planes (layer_numpy_color cm l) ++ canon_planes (layer_numpy_shape l))
+    else 0 ].
 
 (* ------------------------------------------------------------------ stream "doc" (C07) *)
 Record doc_case := mkDC {
@@ -89,7 +97,15 @@ Definition doc_digests (k : doc_case) : list Z :=
   [ dg (canon_header hd);
     dg (canon_res canon_planes (do x <- r; get_data (snd x) hd));
     if dc_topil k then dg (canon_res canon_raster (do x <- r; doc_topil hd (snd x) (doc_has_transparency hd 0))) else 0;
-    if dc_numpy k then dg (canon_res canon_planes (do x <- r; doc_numpy hd (snd x))) else 0 ].
+    if dc_numpy k then dg (canon_res canon_planes (do x <- r; doc_numpy hd (snd x))) else 0;
+    (* every channel selector: topil(0..channels-1), topil(TRANSPARENCY_MASK), numpy("color"/"shape"/"mask") *)
+    if dc_topil k && dc_numpy k then
+      let tr := doc_has_transparency hd 0 in
+      dg (flat_map (fun ch => canon_res canon_opt_plane (do x <- r; doc_topil_chan hd (snd x) ch))
+                   (zseq (Z.to_nat (h_channels hd)))
+          ++ canon_res canon_opt_plane (do x <- r; doc_topil_transparency hd (snd x))
+          ++ flat_map (fun sel => canon_res canon_planes (do x <- r; doc_numpy_sel hd (snd x) tr sel)) [1; 2; 3])
+    else 0 ].
 
 (* ------------------------------------------------------------------ stream "save" (C17) *)
 Record save_case := mkSC {
